@@ -247,19 +247,23 @@ def main(tier, replay=None):
         f.write("---- MODULE MC_Precedence ----\nEXTENDS Precedence\nDocLvl == << %s >>\n====\n"
                 % ", ".join(map(str, lv)))
 
-    def cfg(name, mo, md, mt):
+    def cfg(name, mo, md, mt, reps="AllOps"):
         with open(os.path.join(gd, name + ".cfg"), "w") as f:
-            f.write("CONSTANTS Lvl <- DocLvl MaxOps = %d MaxDepth = %d MaxTotal = %d\n"
+            f.write("CONSTANTS Lvl <- DocLvl MaxOps = %d MaxDepth = %d MaxTotal = %d Reps <- %s\n"
                     "INIT Init\nNEXT Next\nCHECK_DEADLOCK FALSE\n"
-                    "INVARIANTS AlgEqualsRef RefKeepsOrder Emit\n" % (mo, md, mt))
+                    "INVARIANTS AlgEqualsRef RefKeepsOrder Emit\n" % (mo, md, mt, reps))
         return name
 
     runs = []
     if tier == "quick":
         runs.append(("mc", cfg("flat", 4, 1, 4), None, None, "exhaustive: all chains of 1..4 operators"))
         runs.append(("mc", cfg("grp", 3, 2, 3), None, None, "exhaustive: <=3 operators with one level of parentheses"))
+        runs.append(("mc", cfg("lvl", 6, 1, 6, "OnePerLevel"), None, None,
+                     "exhaustive: all chains of 1..6 operators over one operator per published level"))
         runs.append(("sim", cfg("sim", 10, 3, 10), 300, 60, "simulation: chains <=10 operators, parentheses depth <=3"))
     else:
+        runs.append(("mc", cfg("lvl", 7, 1, 7, "OnePerLevel"), None, None,
+                     "exhaustive: all chains of 1..7 operators over one operator per published level"))
         runs.append(("mc", cfg("flat", 5, 1, 5), None, None, "exhaustive: all chains of 1..5 operators"))
         runs.append(("mc", cfg("grp", 3, 3, 4), None, None, "exhaustive: <=4 operators, <=3 per sub-chain, parentheses depth <=3"))
         runs.append(("sim", cfg("sim", 10, 3, 10), 6000, 60, "simulation: chains <=10 operators, parentheses depth <=3"))
